@@ -571,7 +571,7 @@ def run(ctx):
     ctx.clauses_decided = ["a: reports the list model after any history", "b: standard .npy with the same content after flush/close",
                            "c: after a kill the file loads, batch aligned, and equals a logical content since the last completed flush"]
     ctx.clauses_not_decided = ["power-failure semantics (page cache loss, torn sector writes): outside a process kill",
-                               "ArrayPool directory-level save/open histories (NpyStore is what ArrayPool stores batches in)"]
+                               "ArrayPool directory-level save/open histories are outside the statement (NpyStore is what ArrayPool stores batches in): covered by the PoolLife extension, drift only"]
     acts = ["BeginAppend", "BeginOverwrite", "BeginTruncate", "BeginRead", "BeginFlush", "BeginCloseReopen", "BeginPickle", "Micro", "OSWrite", "Crash"]
     good = ["FlushExact", "CrashSafe"]
     # (vals, maxlen, maxcalls, truncate-header-first, memmap-syncs-header, init, invariants, expected to hold)
@@ -596,6 +596,8 @@ def run(ctx):
     crash_idx = [i for i, s in enumerate(scs) if s["kind"] == "crash"]
     for i in [0] + crash_idx[:1] + crash_idx[len(crash_idx) // 2:len(crash_idx) // 2 + 1]:
         ctx.sample(dict(scenario=scs[i], observed=traces[i]["obs"] if scs[i]["kind"] == "crash" else traces[i]["calls"][:3]))
+    from harness.props import x_pool_life
+    x_pool_life.check_pool_life(ctx)      # extension: ArrayPool / OutputPool on-disk lifecycle (E: clauses, drift only)
 
 
 def replay(ctx, scenario):
